@@ -12,6 +12,10 @@ ASSUMPTIONS = ["segments are non-empty (main.run drops empty TCP payloads before
                "a duplicate is an exact retransmission (same sequence number, same bytes)"]
 
 
+LONGDUP_N = {"quick": 300, "thorough": 1500}
+LONGDUP_ISN = 0xFFFFFC00   # concrete: the N segments cross 2^32 (a symbolic ISN is covered by the other configurations)
+
+
 def _tier(tier):
     if tier == "quick":
         return {"R": 2, "P": 2, "cuts": 2, "dups": 1, "disp": 1}
@@ -42,6 +46,10 @@ def configs(tier, seed):
             T3 = dict(T, disp=2, cuts=3)
             out.append({"name": "%s-cuts+reorder-any-r2-c3-disp2-len2" % main_dir, "harness": "segmentation", "main": main_dir, "transform": "cuts+reorder", "isn": "any",
                         "mode": "real", "nrec": 2, "ncuts": 3, "fixed": {"len0": 2, "len1": 2, "move_dist": 2}, **T3})
+    # an exact duplicate captured a long way behind its original: N one-record segments, then a retransmission of a solver-chosen one of
+    # them (a duplicate filter that forgets, e.g. a bounded window, lets it back into the reassembly buffer)
+    for main_dir in ("server", "client"):
+        out.append({"name": "%s-longdup" % main_dir, "harness": "longdup", "main": main_dir, "mode": "real", "n": LONGDUP_N[tier]})
     # the whole program (main.run -> Session -> builder) on connections whose every TCP segment carries s bytes: single bytes, records
     # spanning many segments, a record's last byte alone in a segment
     from tlv.harness import c01
@@ -64,6 +72,8 @@ def bounds(tier):
             "reordering": "one segment displaced by <= %d places within its direction" % T["disp"],
             "ISN": "whole 32-bit space; 'near-wrap' configurations constrain it so that the stream crosses 2^32",
             "program": "3 connections (thorough: one per cipher family and version) through main.run with every segment of 1, 2 or 5 bytes (thorough: 1, 2, 3, 5, 7)",
+            "long-distance duplicate": "%d one-record segments (content bytes symbolic), then an exact duplicate of a solver-chosen one of them, then two more "
+                                       "segments; concrete ISN 0x%x (the stream crosses 2^32)" % (LONGDUP_N[tier], LONGDUP_ISN),
             "other direction": "one record in one segment at a solver-chosen position of the interleaving",
             "outside": "retransmissions that start inside an earlier segment or arrive before the data they repeat, keep-alives, more than one transformation at once"}
 
@@ -201,6 +211,12 @@ def run_config(cfg):
         r = c01.run_config(cfg)
         return r
     from tlv.sx import shims
+    if cfg["harness"] == "longdup":
+        import tlexport.session as ts
+        import tlexport.tlsrecord as tr
+        shims.install(ts)
+        shims.install(tr)
+        return _run_longdup(cfg)
     from tlv.sx.core import ctx, sym_int, sym_choice, sym_and
     from tlv.sx.symbytes import sym_bytes, mixed_bytes, as_symbytes
     from tlv.harness.common import explore_cfg
@@ -242,6 +258,67 @@ def run_config(cfg):
     return explore_cfg(scenario, cfg, timeout_ms=60000, max_paths=300000, sample_paths=2)
 
 
+def _longdup_pkts(cfg, recs, dup_seq, dup_data, other):
+    main_server = cfg["main"] == "server"
+    n = cfg["n"]
+    pkts = [Pkt(not main_server, 5000, other, 99.5, "other")]
+    for i in range(n):
+        if i == n - 2:
+            pkts.append(Pkt(main_server, dup_seq, dup_data, 100.0 + i - 0.5, "maindup"))
+        pkts.append(Pkt(main_server, (LONGDUP_ISN + 6 * i) & 0xFFFFFFFF, recs[i], 100.0 + i, "main%d" % i))
+    return pkts
+
+
+def _run_longdup(cfg):
+    from tlv.sx.core import ctx, sym_int, sym_and, implies
+    from tlv.sx.symbytes import mixed_bytes, as_symbytes
+    from tlv.harness.common import explore_cfg
+    n = cfg["n"]
+    hdr = bytes([0x17, 3, 3, 0, 1])
+
+    def scenario():
+        c = ctx()
+        recs = [mixed_bytes("r%d" % i, [hdr, 1]) for i in range(n)]
+        other = mixed_bytes("other", [hdr, 1])
+        idx = sym_int("dup_of", 0, n - 3)
+        dup = mixed_bytes("dup", [hdr, 1])
+        for i in range(n - 2):
+            c.assume(implies(idx == i, dup[5] == recs[i][5]))
+        dup_seq = (idx * 6 + LONGDUP_ISN) & 0xFFFFFFFF
+        pkts = _longdup_pkts(cfg, recs, dup_seq, dup, other)
+        try:
+            s, got = _run_session(pkts)
+        except Exception as e:
+            c.fail("no-exception", "%s: %s" % (type(e).__name__, e))
+            return {"outcome": "exception"}
+        c.check(True, "no-exception")
+        main_server = cfg["main"] == "server"
+        mine = [(r, f) for r, f in got if f == main_server]
+        theirs = [(r, f) for r, f in got if f != main_server]
+        if not c.check(len(mine) == n and len(theirs) == 1, "records-complete", "delivered %d+%d records, sent %d+1" % (len(mine), len(theirs), n)):
+            return {"outcome": "incomplete"}
+        c.check(sym_and(*[as_symbytes(r.raw) == e for (r, _), e in zip(mine, recs)], as_symbytes(theirs[0][0].raw) == other), "records-equal-sent")
+        c.check(True, "direction-flag")
+        return {"outcome": "ok", "segments": n + 1}
+    return explore_cfg(scenario, cfg, timeout_ms=60000, max_paths=300000, max_decisions=5 * n + 1000, sample_paths=2)
+
+
+def _concrete_longdup(cfg, inp):
+    n = cfg["n"]
+    recs = [bytes.fromhex(inp["r%d" % i]) for i in range(n)]
+    other = bytes.fromhex(inp["other"])
+    k = inp["dup_of"]
+    pkts = _longdup_pkts(cfg, recs, (LONGDUP_ISN + 6 * k) & 0xFFFFFFFF, recs[k], other)
+    main_server = cfg["main"] == "server"
+    try:
+        s, got = _run_session(pkts)
+    except Exception as e:
+        return {"ok": False, "why": "exception %s: %s" % (type(e).__name__, e)}
+    mine = [bytes(r.raw) for r, f in got if f == main_server]
+    theirs = [bytes(r.raw) for r, f in got if f != main_server]
+    return {"ok": mine == recs and theirs == [other], "dup_of": k, "delivered_records": len(mine), "sent_records": n}
+
+
 def _from_main(record, main_server):
     tags = [p.tag for p in record.metadata]
     return all(t.startswith("main") for t in tags) and bool(tags)
@@ -273,7 +350,7 @@ def replay(cfg, viol):
         from tlv.harness import c01
         r = c01.concrete(cfg, viol["inputs"])
         return {"reproduced": not r["ok"], **r}
-    r = _concrete(cfg, viol["inputs"])
+    r = _concrete_longdup(cfg, viol["inputs"]) if cfg["harness"] == "longdup" else _concrete(cfg, viol["inputs"])
     return {"reproduced": not r["ok"], **r}
 
 
@@ -282,5 +359,5 @@ def validate(cfg, sample):
         from tlv.harness import c01
         r = c01.concrete(cfg, sample["inputs"])
         return {"agree": r["ok"], **r}
-    r = _concrete(cfg, sample["inputs"])
+    r = _concrete_longdup(cfg, sample["inputs"]) if cfg["harness"] == "longdup" else _concrete(cfg, sample["inputs"])
     return {"agree": r["ok"], **r}
